@@ -238,6 +238,8 @@ def run(ctx):
     setup = find_setup(repo, INF, 'FactoredInference')
     from ..normalise import normalised
     setup = normalised(repo, setup)
+    from ._generic import scan_pop
+    scan_pop(ctx, setup)
     lip = repo.nfunc(INF, 'FactoredInference._lipschitz')
     loss = repo.nfunc(INF, 'FactoredInference._marginal_loss')
     fix = repo.nfunc(INF, 'FactoredInference.fix_measurements')
@@ -1005,7 +1007,27 @@ def check_lipschitz(ctx, fi, s2):
            'per-measurement term: expected %r added to the bucket of `%s`, source %r' % (want, cl, got))
     rets = [r for r in fi.body if isinstance(r, ast.Return)]
     inits = [s for s in fi.body if isinstance(s, ast.Assign) and isinstance(s.value, ast.DictComp)]
-    ok = bool(rets) and U(rets[-1].value).replace(' ', '') == 'max(%s.values())' % U(acc.target.value)
+    table = U(acc.target.value)
+    ok = bool(rets) and U(rets[-1].value).replace(' ', '') == 'max(%s.values())' % table
+    if not ok and rets and isinstance(rets[-1].value, ast.Name):
+        # running maximum: L = 0 before the loop, `L = max(L, table[cl])` right after every update of a bucket, L returned.  The terms are
+        # non-negative (lambda_max of Q^T Q, sizes, a squared noise scale), so a bucket only grows and the running maximum of the bucket just
+        # updated is the maximum over all buckets at the end.
+        L = rets[-1].value.id
+        linit = [s_ for s_ in fi.body if isinstance(s_, ast.Assign) and len(s_.targets) == 1 and U(s_.targets[0]) == L]
+        par = getattr(acc, '_parent', None)
+        blk = next((b for b in (getattr(par, 'body', None), getattr(par, 'orelse', None)) if isinstance(b, list) and acc in b), [])
+        nxt = blk[blk.index(acc) + 1] if acc in blk and blk.index(acc) + 1 < len(blk) else None
+        upd = [s_ for s_ in ast.walk(s2['outer']) if isinstance(s_, (ast.Assign, ast.AugAssign)) and L in [U(t) for t in getattr(s_, 'targets', None) or [s_.target]]]
+        forms = ('max(%s,%s[%s])' % (L, table, U(acc.target.slice)), 'max(%s[%s],%s)' % (table, U(acc.target.slice), L))
+        ok = len(linit) == 1 and U(linit[0].value) in ('0', '0.0') and fi.body.index(linit[0]) < fi.body.index(s2['outer']) \
+            and len(upd) == 1 and upd[0] is nxt and isinstance(nxt, ast.Assign) and U(nxt.value).replace(' ', '') in forms
     ctx.ob('lipschitz-form', fi, rets[-1] if rets else fi.node, ok, 'the bound is the maximum over cliques of the per-clique sums')
     ok = bool(inits) and U(inits[0].value.value) in ('0.0', '0') and U(inits[0].value.generators[0].iter) == 'self.model.cliques'
+    if not ok:
+        zero_default = [s_ for s_ in fi.body if isinstance(s_, ast.Assign) and len(s_.targets) == 1 and U(s_.targets[0]) == table
+                        and U(s_.value).replace(' ', '') in ('defaultdict(float)', 'collections.defaultdict(float)', 'defaultdict(int)',
+                                                               'dict.fromkeys(self.model.cliques,0.0)', 'dict.fromkeys(self.model.cliques,0)')]
+        ok = len(zero_default) == 1
+        inits = zero_default or inits
     ctx.ob('lipschitz-form', fi, inits[0] if inits else fi.node, ok, 'every model clique starts with a zero sum')
